@@ -395,6 +395,19 @@ def run(chk):
                 chk.cov["vm_compute_crosschecked"] = n
             except Exception as ex:
                 chk.infra_errors.append("vm_compute cross-check failed: %r" % (ex,))
+            # canary (DESIGN.md section 7): the model variant WITHOUT the depth limit must be told
+            # apart from the real code by the observation (number of less calls) on killer inputs;
+            # if not, the comparison is too weak to notice a missing heapsort fallback
+            try:
+                kc = [c for c in dict(streams)["quicksort-killer"] if int(c.split()[3]) >= 200]
+                can = common.run_model([c.replace("c15S", "c15N", 1) for c in kc])
+                imp = common.run_impl(binary, kc)
+                differ = sum(1 for m, i in zip(can, imp) if compare("c15S", m, i) is not None)
+                chk.cov["canary_no_depth_limit"] = dict(cases=len(kc), told_apart=differ)
+                if kc and differ == 0:
+                    chk.infra_errors.append("canary: the no-depth-limit model variant is not distinguished from the implementation on any killer input")
+            except Exception as ex:
+                chk.infra_errors.append("canary run failed: %r" % (ex,))
     chk.finish(search=search)
 
 
